@@ -225,7 +225,28 @@ func (g *Gen) genCreateClass() *eng.Tx {
 
 func (g *Gen) class() *baseapi.Class {
 	c, _ := pick(g, g.V.ClassList)
+	if c != nil {
+		g.noteRelated(obs.Addr(c.Admin))
+		for _, a := range sortedKeys(g.V.Issuers[c.Key]) {
+			g.noteRelated(a)
+		}
+	}
 	return c
+}
+
+// noteRelated remembers the holders of roles on the entities the current generator looked at (class
+// admin, class issuers, project admin, batch issuer): a hostile signer choice uses them — the holder of
+// a DIFFERENT role on the same or a related entity is the most plausible wrongly-authorised signer.
+func (g *Gen) noteRelated(a string) {
+	if a == "" {
+		return
+	}
+	for _, x := range g.related {
+		if x == a {
+			return
+		}
+	}
+	g.related = append(g.related, a)
 }
 
 // related id strings: absent, prefixes and extensions of present ids
@@ -293,6 +314,9 @@ func (g *Gen) genCreateProject() *eng.Tx {
 
 func (g *Gen) project() *baseapi.Project {
 	p, _ := pick(g, g.V.ProjectList)
+	if p != nil {
+		g.noteRelated(obs.Addr(p.Admin))
+	}
 	return p
 }
 
@@ -437,6 +461,15 @@ func (g *Gen) genCreateBatch() *eng.Tx {
 
 func (g *Gen) batch() *baseapi.Batch {
 	b, _ := pick(g, g.V.BatchList)
+	if b != nil {
+		g.noteRelated(obs.Addr(b.Issuer))
+		if p := g.V.Projects[b.ProjectKey]; p != nil {
+			g.noteRelated(obs.Addr(p.Admin))
+			if c := g.V.Classes[p.ClassKey]; c != nil {
+				g.noteRelated(obs.Addr(c.Admin))
+			}
+		}
+	}
 	return b
 }
 
